@@ -2,7 +2,6 @@ package main
 
 import (
 	"context"
-	"net/url"
 	"encoding/json"
 	"errors"
 	"fmt"
@@ -10,6 +9,7 @@ import (
 	"math/rand"
 	"net"
 	"net/http"
+	"net/url"
 	"os"
 	"slices"
 	"strings"
@@ -389,7 +389,9 @@ GenPatterns == %s
 				failTool("bad vector: %v", err)
 			}
 			if len(v.Routes) > 10 && len(v.G) > 0 {
-				once.Do(func() { r.sample(map[string]any{"global": v.G, "router": v.Router, "route_options": v.Routes[7].R, "route": v.Routes[7].Cfg}) })
+				once.Do(func() {
+					r.sample(map[string]any{"global": v.G, "router": v.Router, "route_options": v.Routes[7].R, "route": v.Routes[7].Cfg})
+				})
 			}
 			ch <- v
 		}})
@@ -452,6 +454,19 @@ func replayLogVec(r *Run, v logVec, evals *atomic.Int64) {
 				c.Writer().Write([]byte("hello"))
 			case "info":
 				c.Writer().WriteHeader(int(cs.Did[1].(float64)))
+			case "bodythen":
+				c.Writer().Write([]byte("hello"))
+				c.Writer().WriteHeader(int(cs.Did[1].(float64)))
+			case "twice":
+				c.Writer().WriteHeader(int(cs.Did[1].(float64)))
+				c.Writer().WriteHeader(int(cs.Did[2].(float64)))
+			case "flushthen":
+				_ = c.Writer().FlushError()
+				c.Writer().WriteHeader(int(cs.Did[1].(float64)))
+			case "infotwice":
+				c.Writer().WriteHeader(int(cs.Did[1].(float64)))
+				c.Writer().WriteHeader(int(cs.Did[2].(float64)))
+				c.Writer().WriteHeader(int(cs.Did[3].(float64)))
 			}
 			handlerSeq = int(seq.Add(1))
 		}
@@ -491,7 +506,7 @@ func replayLogVec(r *Run, v logVec, evals *atomic.Int64) {
 				req.URL.RawPath = esc
 			}
 			w := newPlainWriter()
-			rt.ServeHTTP(w, req)
+			rt.ServeHTTP(flusherWriter{w}, req) // an underlying writer that can flush, as net/http's is
 			return w
 		}
 		wWith := do(build(true))
@@ -572,6 +587,10 @@ func checkC20(r *Run) {
 		did = append(did, fmt.Sprintf(`<<"status", %d>>`, s))
 	}
 	did = append(did, `<<"body">>`, `<<"nothing">>`, `<<"info", 103>>`)
+	// a final header that comes too late: after body bytes, after an earlier final status, after a flush, after an
+	// informational header and a final one
+	did = append(did, `<<"bodythen", 500>>`, `<<"bodythen", 302>>`, `<<"twice", 201, 500>>`, `<<"twice", 404, 200>>`, `<<"twice", 301, 404>>`,
+		`<<"flushthen", 503>>`, `<<"infotwice", 103, 202, 500>>`)
 	gen := "---- MODULE Gen_Logger ----\nGenDid == {" + strings.Join(did, ", ") + "}\n====\n"
 	var n, evals atomic.Int64
 	res := r.runTLC(tlcOpts{Module: "MC_Logger", Gen: map[string]string{"Gen_Logger.tla": gen}, Timeout: 5 * time.Minute,
@@ -638,10 +657,48 @@ func panicValue(class string) any {
 	return nil
 }
 
+// underlying writers that can flush: through http.Flusher only, or through FlushError
+type flusherWriter struct{ *plainWriter }
+
+func (w flusherWriter) Flush() {
+	if w.status == 0 {
+		w.status = 200
+	}
+}
+
+type flushErrWriter struct{ *plainWriter }
+
+func (w flushErrWriter) FlushError() error {
+	if w.status == 0 {
+		w.status = 200
+	}
+	return nil
+}
+
 func replayRecVec(r *Run, v recVec, evals *atomic.Int64) {
-	sites := []string{"route", "inner-middleware", "noroute", "nomethod", "options"}
+	sites := []string{"route", "route-tsr", "route-host", "inner-middleware", "noroute", "nomethod", "options"}
 	for _, cs := range v.Cases {
 		for _, site := range sites {
+			under := []string{"plain"}
+			if cs.Progress == "flushed" {
+				under = []string{"flusher", "flusherr"}
+			}
+			for _, uw := range under {
+				replayRecCase(r, v, cs.Progress, cs.Repanic, cs.Response, cs.Logged, site, uw, evals)
+			}
+		}
+	}
+}
+
+func replayRecCase(r *Run, v recVec, progress string, repanic bool, response string, logged bool, site, underlying string, evals *atomic.Int64) {
+	cs := struct {
+		Progress string
+		Repanic  bool
+		Response string
+		Logged   bool
+	}{progress, repanic, response, logged}
+	{
+		{
 			capH := &captureHandler{}
 			val := panicValue(v.Class)
 			boom := func(c fox.Context) {
@@ -651,6 +708,8 @@ func replayRecVec(r *Run, v recVec, evals *atomic.Int64) {
 				case "partial":
 					c.Writer().WriteHeader(202)
 					c.Writer().Write([]byte("par"))
+				case "flushed":
+					_ = c.Writer().FlushError() // sends the implicit 200 header: the response has started
 				}
 				panic(val)
 			}
@@ -679,8 +738,11 @@ func replayRecVec(r *Run, v recVec, evals *atomic.Int64) {
 				failTool("fox.New: %v", err)
 			}
 			rt.MustHandle("GET", "/boom/{id}", pick("route"))
+			rt.MustHandle("GET", "/boomi/{id}/", pick("route-tsr"), fox.WithIgnoreTrailingSlash(true))
+			rt.MustHandle("GET", "rec.example/boomh/{id}", pick("route-host"))
 			rt.MustHandle("GET", "/other", quiet)
-			q := map[string][2]string{"route": {"GET", "/boom/42"}, "inner-middleware": {"GET", "/boom/42"}, "noroute": {"GET", "/nope"}, "nomethod": {"POST", "/other"}, "options": {"OPTIONS", "/other"}}[site]
+			q := map[string][2]string{"route": {"GET", "/boom/42"}, "route-tsr": {"GET", "/boomi/42"}, "route-host": {"GET", "/boomh/42"}, "inner-middleware": {"GET", "/boom/42"},
+				"noroute": {"GET", "/nope"}, "nomethod": {"POST", "/other"}, "options": {"OPTIONS", "/other"}}[site]
 			req, _ := newRequest(q[0], "rec.example", q[1], "")
 			secrets := map[string]string{}
 			for i, h := range v.Headers {
@@ -689,6 +751,13 @@ func replayRecVec(r *Run, v recVec, evals *atomic.Int64) {
 				secrets[h.Name] = tok
 			}
 			w := newPlainWriter()
+			var hw http.ResponseWriter = w
+			switch underlying {
+			case "flusher":
+				hw = flusherWriter{w}
+			case "flusherr":
+				hw = flushErrWriter{w}
+			}
 			var escaped any
 			didEscape := false
 			func() {
@@ -697,7 +766,7 @@ func replayRecVec(r *Run, v recVec, evals *atomic.Int64) {
 						escaped, didEscape = p, true
 					}
 				}()
-				rt.ServeHTTP(w, req)
+				rt.ServeHTTP(hw, req)
 			}()
 			evals.Add(1)
 			var problem []string
@@ -720,6 +789,9 @@ func replayRecVec(r *Run, v recVec, evals *atomic.Int64) {
 				if cs.Progress != "none" {
 					ws = 202
 				}
+				if cs.Progress == "flushed" {
+					ws = 200
+				}
 				if cs.Progress == "partial" {
 					wb = "par"
 				}
@@ -733,11 +805,11 @@ func replayRecVec(r *Run, v recVec, evals *atomic.Int64) {
 					problem = append(problem, fmt.Sprintf("%d diagnostic records", len(recs)))
 				} else {
 					rc := recs[0]
-					wantRoute := map[string]string{"route": "/boom/{id}", "inner-middleware": "/boom/{id}", "noroute": "NoRouteHandler", "nomethod": "NoMethodHandler", "options": "OptionsHandler"}[site]
+					wantRoute := map[string]string{"route": "/boom/{id}", "route-tsr": "/boomi/{id}/", "route-host": "rec.example/boomh/{id}", "inner-middleware": "/boom/{id}", "noroute": "NoRouteHandler", "nomethod": "NoMethodHandler", "options": "OptionsHandler"}[site]
 					if rc.Attrs["route"] != wantRoute {
 						problem = append(problem, "route attribute "+rc.Attrs["route"])
 					}
-					if (site == "route" || site == "inner-middleware") && rc.Attrs["params.id"] != "42" {
+					if (strings.HasPrefix(site, "route") || site == "inner-middleware") && rc.Attrs["params.id"] != "42" {
 						problem = append(problem, fmt.Sprintf("params attribute %v", rc.Attrs))
 					}
 					if !strings.Contains(rc.Msg, q[0]+" "+q[1]+" HTTP/1.1") {
@@ -758,7 +830,7 @@ func replayRecVec(r *Run, v recVec, evals *atomic.Int64) {
 				problem = append(problem, fmt.Sprintf("%d diagnostic records for a re-raised panic", len(recs)))
 			}
 			// the router stays usable
-			if rt.Len() != 2 || !rt.Has("GET", "/boom/{id}") {
+			if rt.Len() != 4 || !rt.Has("GET", "/boom/{id}") {
 				problem = append(problem, "routes changed")
 			}
 			req2, _ := newRequest("GET", "", "/other", "")
@@ -771,7 +843,7 @@ func replayRecVec(r *Run, v recVec, evals *atomic.Int64) {
 				problem = append(problem, "a write after the panic never returned")
 			}
 			if len(problem) > 0 {
-				r.violation(fmt.Sprintf("recovery class=%s progress=%s site=%s", v.Class, cs.Progress, site), map[string]any{"kind": "vector", "panic_class": v.Class, "progress": cs.Progress, "site": site,
+				r.violation(fmt.Sprintf("recovery class=%s progress=%s site=%s underlying=%s", v.Class, cs.Progress, site, underlying), map[string]any{"kind": "vector", "panic_class": v.Class, "progress": cs.Progress, "site": site, "underlying": underlying,
 					"prescribed": cs, "obtained": problem})
 			}
 		}
